@@ -157,8 +157,8 @@ fn value_of_leaf(enc: Enc, ty: &Ty, l: &Leaf) -> Option<String> {
         Ty::I64 | Ty::I32 => {
             let foreign = text.iter().any(|b| !b.is_ascii_digit() && *b != b'+' && *b != b'-');
             let (neg, m) = match ref_int(&text) { Some(x) => x, None => return if foreign { ty_err } else { None } };
-            if m > i64::MAX as u128 { return ty_err; }
-            let v = if neg { -(m as i64) } else { m as i64 };
+            if m > i64::MAX as u128 && !(neg && m == 1u128 << 63) { return ty_err; }
+            let v = if neg { (-(m as i128)) as i64 } else { m as i64 };
             if *ty == Ty::I32 && i32::try_from(v).is_err() { return ty_err; }
             Some(format!("i{}", v))
         }
@@ -556,7 +556,13 @@ pub fn exec(w: &[&str], obs: &mut Obs) -> Option<String> {
             // L3: the slice front end is the same path
             let s = run_slice(enc, &ty, &data);
             if s != r { obs.violation("tape-vs-slice", &case(), &format!("tape {} slice {}", r, s)); }
-            if *expect != "-" {
+            if let Some(kind) = expect.strip_prefix('!') {
+                // probe of a RECORDED known divergence (known_findings.txt): reported under its own kind
+                let (x, _) = run_reader(enc, &ty, TokenReader::new(&data[..]));
+                if kind == "array-leading-empty" {
+                    if x != r { obs.violation(kind, &case(), &format!("tape {} reader {}", r, x)); } else { obs.count("probe-agrees:array-leading-empty"); }
+                }
+            } else if *expect != "-" {
                 obs.count("tape:with-expectation");
                 if r != *expect { obs.violation("value-of", &case(), &format!("tape path {} reference {}", r, expect)); }
                 // L3: the reader path over the same bytes yields an equal value
@@ -583,7 +589,10 @@ pub fn exec(w: &[&str], obs: &mut Obs) -> Option<String> {
             else if c != r { violation(obs, "stream-chunking", format!("slice reader {} chunked {}", r, c)); }
             let (d, _) = run_reader(enc, &ty, TokenReader::new(&data[..]));
             if d != r { violation(obs, "stream-chunking", format!("slice reader {} default reader {}", r, d)); }
-            if *expect != "-" {
+            if let Some(kind) = expect.strip_prefix('!') {
+                let s = run_slice(enc, &ty, &data);
+                if s != r { obs.violation(kind, &case(), &format!("reader {} tape {}", r, s)); } else { obs.count(&format!("probe-agrees:{}", kind)); }
+            } else if *expect != "-" {
                 obs.count("stream:with-expectation");
                 if r != *expect { violation(obs, "value-of", format!("stream path {} reference {}", r, expect)); }
                 let s = run_slice(enc, &ty, &data);
@@ -743,14 +752,34 @@ pub fn gen(g: &mut Gen) {
             if i % 8 == 0 { emit_pair(g, enc, &parse_ty(derived::TOP_TY).unwrap(), &data, None); }
         }
     }
-    // 5. known divergences, observed (not part of the well-formed document model)
+    // 5. RECORDED known divergences (known_findings.txt), probed with the real ops and reported under their
+    //    own oracle kinds; they are not part of the well-formed document model
+    let word = |rng: &mut Rng| -> String { (0..rng.range(1, 5)).map(|_| (b'a' + rng.below(26) as u8) as char).collect() };
+    for i in 0..12 {
+        // an empty `{}` as FIRST element of an array: dropped by the tape parser, kept by the reader path
+        let key = *g.rng.pick(&["a", "list", "flags"]);
+        let rest: Vec<String> = (0..g.rng.below(4)).map(|_| if g.rng.chance(1, 4) { format!("{{ {} }}", word(&mut g.rng)) } else { word(&mut g.rng) }).collect();
+        let text = format!("{}={{ {{}} {} }} id={}", key, rest.join(" "), g.rng.below(100));
+        let ty = if rest.iter().all(|r| r.starts_with('{')) && g.rng.chance(1, 2) { format!("st({}:seq(seq(any)))", key) } else { format!("st({}:seq(ign);id:opt(i64))", key) };
+        let enc = if i % 2 == 0 { Enc::W } else { Enc::U };
+        emit_pair_with(g, enc, &parse_ty(&ty).unwrap(), text.as_bytes(), Some("!array-leading-empty"), None);
+    }
+    for i in 0..12 {
+        // a header value read as a sequence: the tape path yields [name, body], the reader path ignores the
+        // current token in deserialize_seq
+        let hdr = *g.rng.pick(&["rgb", "hsv", "LIST", "hsv360"]);
+        let n = g.rng.range(1, 4);
+        let body: Vec<String> = (0..n).map(|_| g.rng.below(256).to_string()).collect();
+        let tail = if g.rng.chance(1, 2) { format!(" name={}", word(&mut g.rng)) } else { String::new() };
+        let text = format!("color = {} {{ {} }}{}", hdr, body.join(" "), tail);
+        let ty = *g.rng.pick(&["st(color:seq(any))", "st(color:seq(any);name:opt(str))", "map(seq(any))", "st(color:opt(seq(ign)))"]);
+        let enc = if i % 2 == 0 { Enc::W } else { Enc::U };
+        emit_pair_with(g, enc, &parse_ty(ty).unwrap(), text.as_bytes(), Some("!text-reader-header"), None);
+    }
     for (kind, ty, text) in [
-        ("array-leading-empty", "st(a:seq(seq(any)))", &b"a={ {} {x} }"[..]),
-        ("array-leading-empty", "st(a:seq(ign))", b"a={ {} 1 2 }"),
-        ("first-field-operator-repaired", "st(a:st(b:prop(str)))", b"a={ b ?= c }"),
-        ("first-field-operator-repaired", "st(a:st(b:prop(str)))", b"a={ b != c }"),
-        ("exact-operator-split-repaired", "st(a:prop(str);b:opt(str))", b"a==b"),
+        ("exact-operator-split-repaired", "st(a:prop(str);b:opt(str))", &b"a==b"[..]),
         ("exact-operator-split-repaired", "st(a:prop(str);b:opt(str))", b"a == b            "),
+        ("first-field-operator-repaired", "st(a:st(b:prop(str)))", b"a={ b ?= c }"),
     ] {
         g.emit(format!("x-probe {} w1252 {} {}", kind, ty, hex(text)));
     }
